@@ -31,7 +31,7 @@ type Prop struct {
 	SingleProcess bool
 	// Workers overrides the number of worker processes (0 = NumCPU).
 	Workers int
-	// ChunkTimeout is the wall-clock watchdog per worker process; firing is
+	// ChunkTimeout is the no-progress watchdog per worker process (the journal has not changed for this long); firing is
 	// inconclusive, never a violation.
 	ChunkTimeout time.Duration
 	// Chunk overrides the chunk size.
@@ -230,6 +230,9 @@ func Supervise(p *Prop, tier string, seed int64) int {
 	if timeout == 0 {
 		timeout = 20 * time.Minute
 	}
+	if v, err := strconv.Atoi(os.Getenv("VERIF_WATCHDOG_SECONDS")); err == nil && v > 0 {
+		timeout = time.Duration(v) * time.Second // for testing the watchdog itself
+	}
 	self, _ := os.Executable()
 	var wg sync.WaitGroup
 	deaths := 0
@@ -263,16 +266,33 @@ func Supervise(p *Prop, tier string, seed int64) int {
 				}
 				done := make(chan error, 1)
 				go func() { done <- cmd.Wait() }()
+				// progress watchdog: the worker journals every case before it
+				// runs; it is stopped only when the journal has not changed
+				// for `timeout` (one case stuck), however long the chunk takes
+				// on a loaded machine.
 				timedOut := false
-				select {
-				case <-done:
-				case <-time.After(timeout):
-					timedOut = true
-					cmd.Process.Signal(os.Interrupt)
-					time.Sleep(200 * time.Millisecond)
-					cmd.Process.Kill()
-					<-done
+				lastJournal, lastChange := "", time.Now()
+				tick := time.NewTicker(2 * time.Second)
+			wait:
+				for {
+					select {
+					case <-done:
+						break wait
+					case <-tick.C:
+						jb, _ := os.ReadFile(jpath)
+						if string(jb) != lastJournal {
+							lastJournal, lastChange = string(jb), time.Now()
+						} else if time.Since(lastChange) > timeout {
+							timedOut = true
+							cmd.Process.Signal(os.Interrupt)
+							time.Sleep(200 * time.Millisecond)
+							cmd.Process.Kill()
+							<-done
+							break wait
+						}
+					}
 				}
+				tick.Stop()
 				ef.Close()
 				var res Result
 				b, rerr := os.ReadFile(opath)
@@ -290,7 +310,7 @@ func Supervise(p *Prop, tier string, seed int64) int {
 				idx, label, jok := ReadJournal(jpath)
 				stderr, _ := os.ReadFile(epath)
 				if timedOut {
-					agg.Inconclusive(fmt.Sprintf("watchdog fired after %s in chunk [%d,%d) at case %d (%s)", timeout, ch.from, ch.to, idx, label))
+					agg.Inconclusive(fmt.Sprintf("watchdog: no progress for %s in chunk [%d,%d) at case %d (%s)", timeout, ch.from, ch.to, idx, label))
 					if jok && idx+1 < ch.to {
 						push(chunk{idx + 1, ch.to})
 					}
